@@ -193,7 +193,9 @@ def run_check(prop, tier, seed):
         'translator': _jsonable(gen_info),
         'broken': [{'kind': b['kind'], 'what': b['what']} for b in broken],
         'known_findings_reconfirmed': sorted(reported_known),
-        'explanation': getattr(mod, 'EXPLANATION', ''),
+        'explanation': (getattr(mod, 'EXPLANATION', '') or
+                        ('PROVED: %s | NOT PROVED: %s' % (getattr(mod, 'PROVED', '') or 'see theorems',
+                                                          getattr(mod, 'NOT_PROVED', '') or 'see DESIGN.md'))),
         'proved': getattr(mod, 'PROVED', ''),
         'not_proved': getattr(mod, 'NOT_PROVED', ''),
     }
